@@ -599,6 +599,11 @@ func propMachine(t *rapid.T) {
 		"multimult": func(t *rapid.T) {
 			r := m.pslot("r")
 			n := rapid.IntRange(0, 3).Draw(t, "n")
+			if rapid.IntRange(0, 11).Draw(t, "long") == 0 {
+				// long lists take other code paths (batching, bucket methods) where the operands may be read in
+				// place; the list is made of the machine's few objects, so the receiver is in it many times over
+				n = gen.Sampled([]int{16, 64, 129, 256, 257, 512, 513, 1024, 2048, 4096}).Draw(t, "longn")
+			}
 			vartime := rapid.Bool().Draw(t, "vartime")
 			var ps, ss []int
 			for i := 0; i < n; i++ {
@@ -606,7 +611,11 @@ func propMachine(t *rapid.T) {
 				ss = append(ss, m.sslot(fmt.Sprintf("s%d", i)))
 			}
 			mismatch := rapid.IntRange(0, 9).Draw(t, "mismatch") == 0
-			m.log("multimult(vartime=%v) r%d points%v scalars%v mismatch=%v", vartime, r, ps, ss, mismatch)
+			if n > 8 {
+				m.log("multimult(vartime=%v) r%d %d terms (points %v... scalars %v...) mismatch=%v", vartime, r, n, ps[:8], ss[:8], mismatch)
+			} else {
+				m.log("multimult(vartime=%v) r%d points%v scalars%v mismatch=%v", vartime, r, ps, ss, mismatch)
+			}
 			var lp []*secp256k1.Point
 			var ls []*secp256k1.Scalar
 			for i := range ps {
@@ -643,9 +652,19 @@ func propMachine(t *rapid.T) {
 				return
 			}
 			m.pointOp("MultiScalarMult", r, ps, func() ref.Pt {
-				acc := ref.Infinity()
+				// sum the coefficients per point slot first: a long list costs one reference multiplication per slot
+				coef := map[int]*big.Int{}
 				for i := range ps {
-					acc = acc.Add(m.mp[ps[i]].Mul(m.ms[ss[i]]))
+					if coef[ps[i]] == nil {
+						coef[ps[i]] = new(big.Int)
+					}
+					coef[ps[i]].Add(coef[ps[i]], m.ms[ss[i]])
+				}
+				acc := ref.Infinity()
+				for slot := 0; slot < len(m.mp); slot++ {
+					if c := coef[slot]; c != nil {
+						acc = acc.Add(m.mp[slot].Mul(ref.Mod(c, ref.N)))
+					}
 				}
 				return acc
 			}, call)
